@@ -641,7 +641,8 @@ fn gen_insn(mode: &str, ci: usize, shape: Option<usize>, fault: &str, r: &mut Rn
         data_seed: r.next() | 1,
         prot_data,
         prot_stack,
-        prot_code: 5,
+        // one sample in eight: code that may be executed but not read as data - fetching it is not reading it
+        prot_code: if k % 8 == 6 { 4 } else { 5 },
         extra_steps: 0,
         flips: vec![],
         flip_at: 0,
